@@ -21,6 +21,10 @@ enum
   OBS_DESTROY_OBSERVER,
   OBS_NOTIFY,
   OBS_POLL,
+  // objects that embed an Observable / Observer get copied (a std::vector of such objects grows): the copies come and go,
+  // the originals and their registrations must be unaffected, and nothing may dangle
+  OBS_COPY_OBSERVABLE,
+  OBS_COPY_OBSERVER,
   OBS_NKINDS
 };
 
@@ -210,6 +214,41 @@ static void observer_case(const std::vector<Op> &ops, pbt::Ctx &ctx)
           if (notifiesSincePoll[i] >= 2)
             multiNotify = true;
         }
+      break;
+    }
+    case OBS_COPY_OBSERVABLE: {
+      s = pickSubj(s);
+      if (s < 0)
+        break;
+      {
+        Observable copy(*subj[s]);  // e.g. the element copy made while a vector reallocates
+        if (op.c % 2)
+          copy.notifyObservers();   // concerns the copy only
+        Observable assigned;
+        assigned = *subj[s];
+      }                             // the copies are destroyed: observers of the original stay registered with it
+      ctx.label("observable copied and the copy destroyed");
+      break;
+    }
+    case OBS_COPY_OBSERVER: {
+      o = pickObs(o);
+      if (o < 0)
+        break;
+      const bool subjectFirst = op.c % 2 == 1 && !m[o].orphaned && m[o].of >= 0;
+      std::unique_ptr<Observer> copy(new Observer(*obs[o]));
+      if (subjectFirst) {
+        // the observable goes first: the copy must have been told (it observes the same observable), nothing dangles
+        const int sj = m[o].of;
+        for (auto &x : m)
+          if (x.exists && x.of == sj && !x.orphaned) {
+            x.orphaned = true;
+            observableFirst = true;
+          }
+        subj[sj].reset();
+        PBT_ASSERT_MSG(!copy->wasNotified(), "a copied observer whose observable was destroyed reports a notification");
+      }
+      copy.reset();
+      ctx.label("observer copied");
       break;
     }
     case OBS_POLL: {
@@ -418,7 +457,7 @@ static void stamp_case(const StampCase &c, pbt::Ctx &ctx)
 static void register_properties()
 {
   using namespace rc;
-  auto ops = pbt::vec(pbt::genOpWeighted({{3, OBS_CREATE_OBSERVABLE}, {1, OBS_DESTROY_OBSERVABLE}, {5, OBS_CREATE_OBSERVER}, {2, OBS_DESTROY_OBSERVER}, {5, OBS_NOTIFY}, {6, OBS_POLL}}, 5, 11, 11), 40);
+  auto ops = pbt::vec(pbt::genOpWeighted({{3, OBS_CREATE_OBSERVABLE}, {1, OBS_DESTROY_OBSERVABLE}, {5, OBS_CREATE_OBSERVER}, {2, OBS_DESTROY_OBSERVER}, {5, OBS_NOTIFY}, {6, OBS_POLL}, {2, OBS_COPY_OBSERVABLE}, {2, OBS_COPY_OBSERVER}}, 5, 11, 11), 40);
   pbt::property<std::vector<Op>>("observer_history", 8000, ops, observer_case<false>);
   pbt::property<std::vector<Op>>("observer_history_across_threads", 1500, ops, observer_case<true>);
   pbt::property<std::pair<int, int>>("observer_far_apart", 1, gen::pair(gen::just(farApartEnabled() ? 1 : 0), pbt::range<int>(0, 999)), far_apart_case);
